@@ -39,6 +39,7 @@ func envOr(k, d string) string {
 
 // Program is the loaded, type-checked module with SSA for module packages.
 type Program struct {
+	Norm    *normResult // source normalisation applied before loading (nil overlay: none)
 	Fset    *token.FileSet
 	Roots   []*packages.Package
 	ByPath  map[string]*packages.Package
@@ -61,11 +62,18 @@ func LoadProgram(goos, goarch string, allBodies bool) (*Program, error) {
 	if goarch != "" {
 		env = append(env, "GOARCH="+goarch)
 	}
+	norm, nerr := normalizeRepo(goos, goarch)
+	if nerr != nil {
+		return nil, fmt.Errorf("normalisation: %v", nerr)
+	}
 	cfg := &packages.Config{
 		Mode:  packages.LoadAllSyntax,
 		Dir:   repoDir,
 		Env:   env,
 		Tests: false,
+	}
+	if norm != nil && norm.Overlay != nil {
+		cfg.Overlay = norm.Overlay
 	}
 	pkgs, err := packages.Load(cfg, "./...")
 	if err != nil {
@@ -86,7 +94,7 @@ func LoadProgram(goos, goarch string, allBodies bool) (*Program, error) {
 		}
 		return nil, fmt.Errorf("load/type errors: %s", strings.Join(errs, "; "))
 	}
-	p := &Program{Fset: pkgs[0].Fset, Roots: pkgs, ByPath: map[string]*packages.Package{}, GOOS: goos, GOARCH: goarch}
+	p := &Program{Norm: norm, Fset: pkgs[0].Fset, Roots: pkgs, ByPath: map[string]*packages.Package{}, GOOS: goos, GOARCH: goarch}
 	packages.Visit(pkgs, nil, func(q *packages.Package) { p.ByPath[q.PkgPath] = q })
 	prog, _ := ssautil.AllPackages(pkgs, ssa.InstantiateGenerics)
 	p.SSA = prog
@@ -499,6 +507,10 @@ func (r *Report) Finish() int {
 		"trusted_base":        []string{"go/types type checker", "golang.org/x/tools v0.29.0 go/packages + go/ssa", "rule tables in /verif/checker"},
 		"platforms":           r.Platforms,
 		"exhaustive":          true,
+	}
+	if r.Prog != nil && r.Prog.Norm != nil && r.Prog.Norm.Overlay != nil {
+		cov["normalisation"] = map[string]interface{}{"inlined_new_helpers": r.Prog.Norm.Inlined, "kept": r.Prog.Norm.Kept,
+			"note": "helper functions absent from the baseline function list were inlined into their callers before analysis; reported line numbers refer to the normalised source"}
 	}
 	if r.Prog != nil {
 		cov["packages_loaded"] = len(r.Prog.ByPath)
